@@ -81,6 +81,16 @@ func c16Prop(st *CaseStats, fam int) func(t *rapid.T) {
 		if statsOf(b) != sb {
 			t.Fatalf("%s:\n  Merge modified its argument", desc)
 		}
+		// an argument that is not ice's own statistics type (another segment implementation, a caller-side value)
+		fa, err := c.Seg.CollectionStats(f1)
+		if err != nil {
+			t.Fatalf("%s: %v", desc, err)
+		}
+		sfa := statsOf(fa)
+		fa.Merge(&oneDocStats{})
+		if got, want := statsOf(fa), (XStats{sfa.Total + 5, sfa.DocCount + 2, sfa.SumTTF + 11}); got != want {
+			t.Fatalf("%s:\n  CollectionStats(%q).Merge(foreign statistics {5 2 11}) = %+v, expected %+v", desc, f1, got, want)
+		}
 		b.Merge(b) // self-merge aliasing
 		if got, want := statsOf(b), (XStats{2 * sb.Total, 2 * sb.DocCount, 2 * sb.SumTTF}); got != want {
 			t.Fatalf("%s:\n  self-merge of CollectionStats(%q) = %+v, expected %+v", desc, f2, got, want)
